@@ -1,0 +1,89 @@
+//go:build verif
+
+// Contracts for contract-based deductive verification (govc, /verif).
+// This file contains comments only; it adds no code to the package.
+
+package cac
+
+//@ opaque github.com/gauss-project/aurorafs/pkg/boson.Address as Addr
+
+//@ # ---- assumed: the BMT hasher as a state machine over byte sequences (C03 is not proved) ----
+//@ opaque github.com/gauss-project/aurorafs/pkg/bmt.Hasher as HState
+//@ spec func hEmpty() HState
+//@ spec func hHeader(s HState, span Bytes) HState
+//@ spec func hWrite(s HState, b Bytes) HState
+//@ spec func hSum(s HState) Bytes
+//@ # BMT hash of a payload: span then data written into a fresh hasher
+//@ spec func bmtHash(span Bytes, data Bytes) Bytes = hSum(hWrite(hHeader(hEmpty(), span), data))
+
+//@ extern func github.com/gauss-project/aurorafs/pkg/bmtpool.Get
+//@   ensures result != nil && fresh(result) && deref(result) == hEmpty()
+//@ extern func github.com/gauss-project/aurorafs/pkg/bmtpool.Put
+//@   assigns nothing
+//@ extern func (*github.com/gauss-project/aurorafs/pkg/bmt.Hasher).SetHeader
+//@   requires h != nil
+//@   assigns target(h)
+//@   ensures deref(h) == hHeader(old(deref(h)), seq(span))
+//@ extern func (*github.com/gauss-project/aurorafs/pkg/bmt.Hasher).Write
+//@   requires h != nil
+//@   assigns target(h)
+//@   ensures result1 == nil && deref(h) == hWrite(old(deref(h)), seq(b))
+//@ extern func (*github.com/gauss-project/aurorafs/pkg/bmt.Hasher).Hash
+//@   requires h != nil
+//@   note the error path of Hash (a failing section goroutine) is assumed away
+//@   ensures result1 == nil && seq(result0) == hSum(deref(h)) && len(result0) == 32
+
+//@ # ---- assumed: chunks and addresses are immutable values --------------------------------
+//@ spec func addrBytes(a boson.Address) Bytes
+//@ spec func chunkData(c int) Bytes
+//@ spec func chunkLen(c int) int
+//@ spec func chunkAddr(c int) boson.Address
+//@ extern func (github.com/gauss-project/aurorafs/pkg/boson.Address).Bytes
+//@   ensures seq(result) == addrBytes(a)
+//@   assigns nothing
+//@ extern func github.com/gauss-project/aurorafs/pkg/boson.NewAddress
+//@   ensures addrBytes(result) == seq(b)
+//@   assigns nothing
+//@ extern func (github.com/gauss-project/aurorafs/pkg/boson.Chunk).Data
+//@   ensures seq(result) == chunkData(ref(self)) && len(result) == chunkLen(ref(self))
+//@   assigns nothing
+//@ extern func (github.com/gauss-project/aurorafs/pkg/boson.Chunk).Address
+//@   ensures result == chunkAddr(ref(self))
+//@   assigns nothing
+
+//@ # ---- the package's own functions --------------------------------------------------------
+
+//@ func hasher$1
+//@   property C04
+//@   ensures result1 == nil && seq(result0) == bmtHash(seq(span), seq(data))
+
+//@ func Valid
+//@   property C04
+//@   requires c != nil
+//@   ensures exact: result <==> (8 <= chunkLen(ref(c)) && chunkLen(ref(c)) <= 262144 + 8 && bmtHash(head(chunkData(ref(c)), 8), tail(chunkData(ref(c)), 8)) == addrBytes(chunkAddr(ref(c))))
+
+//@ func newWithSpan
+//@   property C04
+//@   dyntype result0 *boson.chunk
+//@   requires len(span) == 8 && len(data) <= 262144
+//@   ensures result1 == nil && result0 != nil
+//@   ensures address-is-hash: addrBytes(dyn(result0).addr) == bmtHash(seq(span), seq(data))
+//@   ensures payload: len(dyn(result0).sdata) == 8 + len(data) && seq(dyn(result0).sdata[:8]) == seq(span) && seq(dyn(result0).sdata[8:]) == seq(data)
+
+//@ func New
+//@   property C04
+//@   dyntype result0 *boson.chunk
+//@   ensures too-large: len(data) > 262144 ==> result1 != nil
+//@   ensures empty: len(data) == 0 ==> result1 != nil
+//@   ensures ok: 1 <= len(data) && len(data) <= 262144 ==> result1 == nil && result0 != nil
+//@   ensures payload: result1 == nil ==> len(dyn(result0).sdata) == 8 + len(data) && seq(dyn(result0).sdata[8:]) == seq(data)
+//@   callassert newWithSpan span-is-length: len($span) == 8 && int($span[0]) == len(data) % 256 && int($span[1]) == (len(data) / 256) % 256 && int($span[2]) == (len(data) / 65536) % 256 && int($span[3]) == 0 && int($span[4]) == 0 && int($span[5]) == 0 && int($span[6]) == 0 && int($span[7]) == 0
+//@   ensures valid: result1 == nil ==> addrBytes(dyn(result0).addr) == bmtHash(seq(dyn(result0).sdata[:8]), seq(dyn(result0).sdata[8:]))
+
+//@ func NewWithDataSpan
+//@   property C04
+//@   dyntype result0 *boson.chunk
+//@   ensures too-large: len(data) > 262144 + 8 ==> result1 != nil
+//@   ensures too-short: len(data) < 8 ==> result1 != nil
+//@   ensures ok: 8 <= len(data) && len(data) <= 262144 + 8 ==> result1 == nil && result0 != nil
+//@   ensures valid: result1 == nil ==> addrBytes(dyn(result0).addr) == bmtHash(seq(data[:8]), seq(data[8:])) && len(dyn(result0).sdata) == len(data) && seq(dyn(result0).sdata[:8]) == seq(data[:8]) && seq(dyn(result0).sdata[8:]) == seq(data[8:])
